@@ -284,7 +284,12 @@ def run(rep: Report, prog: Program, tier: str) -> None:
             rep.ok("C16-FUA", f"NAL header {hdr:#04x}: type outside 1-23, not a fragmentable NAL unit", nontrivial=False)
             continue
         problems = []
-        for size in (1301, 2 * 1298 + 1):
+        sizes = [1301, 2 * 1298 + 1]
+        if hdr in (0x65, 0x41, 0x21):
+            # boundary classes of the fragment budget: k fragments of 1298 / 1299 payload bytes, one byte more or less
+            sizes += sorted({k * w + d for k in (1, 2, 3, 5, 10) for w in (1297, 1298, 1299, 1300) for d in (-1, 0, 1, 2)} - {0, 1})
+            sizes = [x for x in sizes if x > 1300]
+        for size in sizes:
             nal = bytes([hdr]) + bytes((i * 5 + 1) % 256 for i in range(size - 1))
             try:
                 ev = Evaluator(prog, h264, prog.cls("codecs.h264.H264Encoder"), {"data": nal}, h_hook)
@@ -318,6 +323,25 @@ def run(rep: Report, prog: Program, tier: str) -> None:
             rep.fail(mk_finding(prog, PROP, "C16-FUA", fua, fua.node, f"NAL header {hdr:#04x}: {problems[:3]}", construct=f"fu-a header {hdr:#04x}"))
         else:
             rep.ok("C16-FUA", f"NAL header {hdr:#04x}: fragments of 1301 and 2597 byte units", sample="one start, one end marker, F/NRI/type preserved, bytes verbatim")
+
+    # ---- C16-SINGLE: single NAL unit packets of every type 1..23 are read back verbatim
+    rep.rule("C16-SINGLE", "single NAL unit packets (types 1-23, every NRI) depacketise to the unit itself", min_instances=92)
+    for typ in range(1, 24):
+        for nri in range(4):
+            hdr = (nri << 5) | typ
+            nal = bytes([hdr]) + b"\x11\x22\x33"
+            try:
+                res = h_parse(nal)
+                got = res[1] if isinstance(res, tuple) else None
+            except Raised as r:
+                got = f"raises {r.name}"
+            except Unknown as u:
+                raise AnalysisError(f"C16-SINGLE: cannot evaluate the descriptor parser: {u}")
+            if got == b"\x00\x00\x00\x01" + nal:
+                rep.ok("C16-SINGLE", f"NAL type {typ}, NRI {nri}", sample="start code + unit")
+            else:
+                rep.fail(mk_finding(prog, PROP, "C16-SINGLE", hp, hp.node, f"a single NAL unit packet of type {typ} (NRI {nri}) depacketises to {got if isinstance(got, str) else (got.hex() if got else got)}; "
+                                    f"the unit itself was expected", construct=f"single NAL type {typ}"))
 
     # ---- C16-DISPATCH
     rep.rule("C16-DISPATCH", "depayload dispatch", min_instances=2)
